@@ -116,6 +116,7 @@ type StepObs struct {
 	Bal     []string   `json:"bal"`
 	Paid    []Paid     `json:"paid"`
 	Post    []Post     `json:"post"`
+	Votes   []Vote     `json:"votes"` // Votes store after the step, sorted by voter
 }
 
 var pairs = []asset.Pair{"paa:usd", "pab:usd", "pac:usd", "pad:usd", "pae:usd", "paf:usd"}
@@ -181,6 +182,25 @@ func (w *world) idOf(op sdk.ValAddress) int {
 	return 99
 }
 
+func pairIdx(p asset.Pair) int {
+	for i, q := range pairs {
+		if p == q {
+			return i
+		}
+	}
+	return -1
+}
+
+// idOfAny maps a voter address back to its index (also for addresses that are no validator yet).
+func (w *world) idOfAny(op sdk.ValAddress) int {
+	for i := 0; i < 24; i++ {
+		if valAddr(i).Equals(op) {
+			return i
+		}
+	}
+	return 99
+}
+
 func (w *world) snapshot(o *StepObs) {
 	k := w.f.OracleKeeper
 	o.Miss = [][2]int64{}
@@ -201,6 +221,15 @@ func (w *world) snapshot(o *StepObs) {
 	for _, d := range denoms {
 		o.Bal = append(o.Bal, w.f.BankKeeper.GetBalance(w.ctx, mod, d).Amount.String())
 	}
+	o.Votes = []Vote{}
+	for _, kv := range k.Votes.Iterate(w.ctx, collections.Range[sdk.ValAddress]{}).KeyValues() {
+		v := Vote{Voter: w.idOfAny(kv.Key), T: []Tuple{}}
+		for _, tu := range kv.Value.ExchangeRateTuples {
+			v.T = append(v.T, Tuple{P: pairIdx(tu.Pair), R: tu.ExchangeRate.BigInt().String()})
+		}
+		o.Votes = append(o.Votes, v)
+	}
+	sort.Slice(o.Votes, func(i, j int) bool { return o.Votes[i].Voter < o.Votes[j].Voter })
 	if o.Paid == nil {
 		o.Paid = []Paid{}
 	}
@@ -280,9 +309,8 @@ func (w *world) step(op Op) (StepObs, error) {
 	sk := w.f.StakingKeeper
 	switch op.K {
 	case "end":
-		for _, key := range k.Votes.Iterate(w.ctx, collections.Range[sdk.ValAddress]{}).Keys() {
-			k.Votes.Delete(w.ctx, key)
-		}
+		// the votes of this step are put on top of whatever is still in the store (Insert overwrites per
+		// voter); only clearVotesAndPrevotes at a vote-period end removes votes
 		for _, v := range op.Votes {
 			var ts otypes.ExchangeRateTuples
 			for _, tu := range v.T {
@@ -294,7 +322,7 @@ func (w *world) step(op Op) (StepObs, error) {
 		pan := Recover(func() { oracle.EndBlocker(w.ctx, k) })
 		if pan != "" {
 			o.Panic = true
-			o.Miss, o.Rewards, o.Bal, o.Paid, o.Post = [][2]int64{}, []Reward{}, []string{"0", "0"}, []Paid{}, []Post{}
+			o.Miss, o.Rewards, o.Bal, o.Paid, o.Post, o.Votes = [][2]int64{}, []Reward{}, []string{"0", "0"}, []Paid{}, []Post{}, []Vote{}
 			return o, nil
 		}
 		// rewards credited by distribution during the call
@@ -487,8 +515,10 @@ func genVotes(r *Rng, in *Input, nvals int, sloppy []int, band int64) []Vote {
 	if r.Chance(1, 10) {
 		voters++
 	}
+	// participation of this step: everybody / most / a few (typically below quorum) / nobody
+	part := []int{90, 90, 90, 60, 30, 30, 0}[r.Intn(7)]
 	for v := 0; v < voters; v++ {
-		if r.Chance(1, 10) {
+		if r.Intn(100) >= part {
 			continue
 		}
 		vt := Vote{Voter: v, T: []Tuple{}}
@@ -541,13 +571,13 @@ func genCase(r *Rng) Input {
 	var in Input
 	vp := []uint64{1, 1, 2, 3}[r.Intn(4)]
 	win := vp * uint64(r.Range(1, 4))
-	if r.Chance(1, 6) {
-		win++
+	if r.Chance(1, 6) || (vp > 1 && r.Chance(1, 3)) {
+		win++ // slash-window ends that are not vote-period ends
 	}
 	bandPermille := []int64{20, 20, 20, 0, 500, 1000}[r.Intn(6)]
 	in.Params = Params{VP: vp, Win: win,
 		Thr:  []string{"340000000000000000", "500000000000000000", "666666666666666667"}[r.Intn(3)],
-		MinV: []uint64{1, 1, 2}[r.Intn(3)],
+		MinV: []uint64{1, 1, 2, 2, 3}[r.Intn(5)],
 		Band: fmt.Sprint(bandPermille * 1000000000000000),
 		SF:   []string{"5000000000000000", "100000000000000000", "500000000000000000", "1000000000000000000", "0", "100000000000000", "333333333333333333"}[r.Intn(7)],
 		MV:   []string{"690000000000000000", "500000000000000000", "900000000000000000", "1000000000000000000", "0", "340000000000000000"}[r.Intn(6)],
@@ -571,7 +601,7 @@ func genCase(r *Rng) Input {
 	nvals := n
 	nops := r.Range(8, 24)
 	for i := 0; i < nops; i++ {
-		switch r.Pick(50, 6, 4, 12, 5, 3, 2, 3, 2, 8) {
+		switch r.Pick(48, 10, 4, 12, 5, 3, 2, 3, 2, 8) {
 		case 0:
 			in.Ops = append(in.Ops, Op{K: "end", Jump: "period", Votes: genVotes(r, &in, nvals, sloppy, bandPermille)})
 		case 1:
@@ -690,6 +720,18 @@ func openers() []Input {
 	out = append(out, Input{Params: base, WL: []int{0, 1}, Vals: []string{ten, ten, ten}, Ops: []Op{
 		{K: "end", Jump: "period", Votes: []Vote{{0, []Tuple{{0, mulFrac(limit, 995, 1000)}, {1, rate(200)}}}, {1, []Tuple{{0, mulFrac(limit, 995, 1000)}, {1, rate(200)}}}, {2, []Tuple{{0, rate(100)}, {1, rate(300)}}}}},
 		{K: "end", Jump: "period", Votes: []Vote{good(0), good(1), bad(2)}},
+	}})
+	// feeder outage: in period 1 only validator 2 votes (out of band, no quorum: MinVoters 2); in period 2
+	// validators 0 and 1 vote and 2 stays silent: 2 must get neither a miss nor reward weight
+	pq := base
+	pq.MinV = 2
+	pq.Win = 10
+	out = append(out, Input{Params: pq, WL: []int{0}, Vals: []string{ten, ten, ten}, Ops: []Op{
+		{K: "alloc", Coins: []string{"90", "0"}, N: 3},
+		{K: "end", Jump: "period", Votes: []Vote{bad(2)}},
+		{K: "end", Jump: "period", Votes: []Vote{good(0), good(1)}},
+		{K: "end", Jump: "period", Votes: []Vote{good(2)}},
+		{K: "end", Jump: "period", Votes: []Vote{good(0), good(1)}},
 	}})
 	return out
 }
